@@ -112,8 +112,32 @@ class Builder:
                     # a call of a file-static / free repository function the unit has no rule for (e.g. a helper a refactoring
                     # extracted): lower that function from the same TU as well, place it before this one, and try again
                     m = re.search(r'call fn:(\w+)/(\d+)$', str(e0))
-                    if not m or getattr(tgt, 'no_auto_callees', False):
+                    mm = re.search(r'call ([A-Za-z_]\w*)::([A-Za-z_]\w*)/(\d+)$', str(e0)) if not m else None
+                    if (not m and not mm) or getattr(tgt, 'no_auto_callees', False):
                         raise
+                    if mm:
+                        # a member function of a repository class the unit models (e.g. a private helper a refactoring extracted)
+                        hcls, hname, hn = mm.group(1), mm.group(2), int(mm.group(3))
+                        if hcls not in self.profile.class_types:
+                            raise e0
+                        try:
+                            hd = astx.find_function(tgt.src, hcls + '::' + hname, hname, nparams=hn, extra_flags=tgt.extra_flags)
+                        except astx.ExtractError:
+                            raise e0
+                        if hd.get('kind') != 'CXXMethodDecl' or not _decl_in_repo(hd, tgt.src):
+                            raise e0
+                        hc = 'auto_%s_%s' % (hcls, hname)
+                        ht = Target(tgt.rel, hcls + '::' + hname, hname, hc, this=hcls, nparams=hn, extra_flags=tgt.extra_flags)
+                        ht.decl = hd
+                        ht.lowerer_cls = tgt.lowerer_cls
+                        ht.more_sources = list(getattr(tgt, 'more_sources', []))
+                        ht.no_auto_callees = True
+                        helpers.append('static ' + self.lower(ht))
+                        self.profile.calls['%s::%s/%d' % (hcls, hname, hn)] = ('calleeret' if self.last.ret_class else 'callee', hc)
+                        self.auto_callees = getattr(self, 'auto_callees', []) + [{'function': hcls + '::' + hname, 'for': tgt.cname}]
+                        lw = tgt.lowerer_cls(d, tgt.cname, self.profile, this_type=tgt.this)
+                        lw.source_files = [tgt.src] + list(getattr(tgt, 'more_sources', []))
+                        continue
                     hname, hn = m.group(1), int(m.group(2))
                     try:
                         hd = astx.find_function(tgt.src, hname, hname, nparams=hn, extra_flags=tgt.extra_flags)
